@@ -235,21 +235,33 @@ fn check(id: &str, tier: Tier) -> i32 {
                     println!("VIOLATION property={} replay={}", scn.property(), path.display());
                     exit = 1;
                 }
-                Ok(_) if {
+                Ok(o) if o.status.code() != Some(1) && {
                     // The failure reproduces inside this process but not in a fresh one: the tree under test
-                    // keeps PROCESS-wide state (a static) that earlier runs of the batch built up. Replay the
-                    // batch's earlier runs first, in index order, in one fresh process.
-                    let base = f.index & crate::core::LOG_BIT;
-                    let n = f.index - base;
-                    n > 0 && n <= 200_000 && {
-                        let pre: Vec<u64> = (base..f.index).collect();
+                    // keeps PROCESS-wide state (a static) that other runs of the batch built up. Replay those
+                    // runs first, in index order, in one fresh process: the batch's runs before this one, and
+                    // -- because the workers of the batch run ahead of each other -- a growing number of the
+                    // runs after it, until the failure is there again.
+                    let mut ok = false;
+                    for extra in [0u64, 4_096, 65_536, u64::MAX] {
+                        let end = f.index.saturating_add(1).saturating_add(extra).min(base + n);
+                        let pre: Vec<u64> = (base..end).filter(|i| *i != f.index).collect();
+                        if pre.is_empty() || pre.len() > 200_000 {
+                            break;
+                        }
                         let (p2, _, _) = write_replay(scn.as_ref(), tier, seed, f.index, orig_len, 0, &orig_tape, &pre);
                         let exe = std::env::current_exe().unwrap();
-                        matches!(Command::new(exe).arg("replay").arg(&p2).output(), Ok(o2) if o2.status.code() == Some(1))
+                        if matches!(Command::new(exe).arg("replay").arg(&p2).output(), Ok(o2) if o2.status.code() == Some(1)) {
+                            println!("  the failure depends on process-wide state the tree under test keeps from other runs; the replay file lists {} run(s) of the batch as its prelude", pre.len());
+                            ok = true;
+                            break;
+                        }
+                        if end >= base + n {
+                            break;
+                        }
                     }
+                    ok
                 } =>
                 {
-                    println!("  the failure depends on process-wide state the tree under test keeps from earlier runs; the replay file lists the {} earlier run(s) of the batch as its prelude", f.index - (f.index & crate::core::LOG_BIT));
                     println!("  replay in a fresh process reproduced it exactly");
                     println!("VIOLATION property={} replay={}", scn.property(), path.display());
                     exit = 1;
